@@ -58,6 +58,107 @@ def memo_rule(ctx: Ctx, rid: str):
                        "the calendar answer for one slot is given for another", census=False)
 
 
+def _default_calendar_table(fn):
+    """{(weekday, hour): bool} of a function whose body is assignments / ifs / returns over <param>.weekday(), <param>.hour, integer
+    constants, comparisons and boolean connectives; None when it uses anything else (the caller then falls back to pattern rules)."""
+    if len(fn.params) < 2:
+        return None
+    date = fn.params[1]
+
+    class _No(Exception):
+        pass
+    _DATE = object()          # the table is over actual dates: the parameter is not None
+
+    def ev(e, env, d, h):
+        if isinstance(e, ast.Constant) and (isinstance(e.value, (int, bool)) or e.value is None):
+            return e.value
+        if isinstance(e, ast.Name):
+            if e.id in env:
+                return env[e.id]
+            if e.id == date:
+                return _DATE
+            raise _No()
+        if isinstance(e, ast.Compare) and len(e.ops) == 1 and isinstance(e.ops[0], (ast.Is, ast.IsNot)):
+            a, b = ev(e.left, env, d, h), ev(e.comparators[0], env, d, h)
+            return (a is b) if isinstance(e.ops[0], ast.Is) else (a is not b)
+        if isinstance(e, ast.Call) and not e.args and not e.keywords and norm(e.func) == f"{date}.weekday":
+            return d
+        if isinstance(e, ast.Attribute) and norm(e) == f"{date}.hour":
+            return h
+        if isinstance(e, ast.UnaryOp) and isinstance(e.op, ast.Not):
+            return not ev(e.operand, env, d, h)
+        if isinstance(e, ast.BoolOp):
+            r = None
+            for v in e.values:
+                r = ev(v, env, d, h)
+                if isinstance(e.op, ast.And) and not r:
+                    return r
+                if isinstance(e.op, ast.Or) and r:
+                    return r
+            return r
+        if isinstance(e, ast.Compare):
+            left = ev(e.left, env, d, h)
+            for op, c in zip(e.ops, e.comparators):
+                right = ev(c, env, d, h)
+                if isinstance(op, (ast.In, ast.NotIn)):
+                    raise _No()
+                fns = {ast.Lt: lambda a, b: a < b, ast.LtE: lambda a, b: a <= b, ast.Gt: lambda a, b: a > b, ast.GtE: lambda a, b: a >= b,
+                       ast.Eq: lambda a, b: a == b, ast.NotEq: lambda a, b: a != b}
+                if type(op) not in fns or left is None or right is None:
+                    raise _No()
+                if not fns[type(op)](left, right):
+                    return False
+                left = right
+            return True
+        if isinstance(e, ast.IfExp):
+            return ev(e.body, env, d, h) if ev(e.test, env, d, h) else ev(e.orelse, env, d, h)
+        if isinstance(e, ast.Call) and norm(e.func) == "bool" and len(e.args) == 1:
+            return bool(ev(e.args[0], env, d, h))
+        raise _No()
+
+    class _Ret(Exception):
+        def __init__(self, v):
+            self.v = v
+
+    def run_block(stmts, env, d, h):
+        for st in stmts:
+            if isinstance(st, ast.Expr) and isinstance(st.value, ast.Constant):
+                continue
+            if isinstance(st, ast.Pass):
+                continue
+            if (isinstance(st, ast.Assign) and len(st.targets) == 1 and isinstance(st.targets[0], ast.Name)) or \
+                    (isinstance(st, ast.AnnAssign) and isinstance(st.target, ast.Name) and st.value is not None):
+                tg = st.targets[0] if isinstance(st, ast.Assign) else st.target
+                try:
+                    env[tg.id] = ev(st.value, env, d, h)
+                except _No:
+                    env.pop(tg.id, None)     # not a function of (weekday, hour): any later use of it makes the table undecidable
+            elif isinstance(st, ast.If):
+                run_block(st.body if ev(st.test, env, d, h) else st.orelse, env, d, h)
+            elif isinstance(st, ast.Return):
+                raise _Ret(ev(st.value, env, d, h) if st.value is not None else None)
+            elif isinstance(st, ast.For) and not st.orelse and \
+                    all(isinstance(r.value, ast.Constant) and r.value.value is False for r in ast.walk(st) if isinstance(r, ast.Return)) and \
+                    not any(isinstance(x, ast.Name) and isinstance(x.ctx, ast.Store) and x not in ast.walk(st.target) for x in ast.walk(st)):
+                continue          # a loop that can only veto (holidays): the table describes a date no entry vetoes
+            else:
+                raise _No()
+        return None
+
+    tab = {}
+    try:
+        for d in range(7):
+            for h in range(24):
+                try:
+                    run_block(fn.node.body, {}, d, h)
+                    tab[(d, h)] = False
+                except _Ret as r:
+                    tab[(d, h)] = bool(r.v)
+    except _No:
+        return None
+    return tab
+
+
 def blocked_interval_rule(ctx: Ctx, rid: str):
     """Leave intervals are marked half-open in slots, [slot(start), slot(end)): no slot before the leave and no slot after its end
     is blocked, and the sibling loops (project-wide and own leaves) agree  (C02 R02.13 / C08 R08.11)."""
@@ -404,7 +505,19 @@ def run(ctx: Ctx):
                    key=key_of("R02.5", fn, None, "block " + norm(n.test)[-60:]))
     # default calendar
     wk = hr = None
-    for n in own_nodes(dflt):
+    tab = _default_calendar_table(dflt)
+    if tab is not None:
+        # the function is a finite decision over (day of week, hour): its table is read off the syntax tree, whatever the statement shape
+        bad_wk = sorted({d for (d, h), v in tab.items() if d >= 5 and v})
+        bad_hr = sorted({h for (d, h), v in tab.items() if d < 5 and v != (9 <= h < 17)})
+        wk = hr = True
+        ctx.ob("R02.5", f"{dflt.qual}: decision table over weekday: weekend", dflt, not bad_wk,
+               "Saturday and Sunday (weekday >= 5) are never working time" if not bad_wk else f"weekend test is not weekday >= 5 -> not working (working on weekdays {bad_wk})",
+               key="R02.5|Project._isDefaultWorkingTime|weekend")
+        ctx.ob("R02.5", f"{dflt.qual}: decision table over hour: Mon-Fri", dflt, not bad_hr,
+               "working iff 9 <= hour < 17" if not bad_hr else f"default hours are not 9 <= hour < 17 (differs at hours {bad_hr})",
+               key="R02.5|Project._isDefaultWorkingTime|hours")
+    for n in (own_nodes(dflt) if tab is None else ()):
         if isinstance(n, ast.If) and isinstance(n.test, ast.Compare) and "weekday" in norm(n.test.left):
             wk = _table(n.test, lambda e: isinstance(e, ast.Name) and e.id == "weekday", lambda e: isinstance(e, ast.Constant) and e.value == 5)
             wk_ret_false = any(isinstance(s, ast.Return) and isinstance(s.value, ast.Constant) and s.value.value is False for s in n.body)
@@ -416,7 +529,7 @@ def run(ctx: Ctx):
     for n in own_nodes(dflt):
         if isinstance(n, (ast.Assign, ast.AnnAssign)) and isinstance(n.value, ast.Compare) and "hour" in norm(n.value):
             res_names[norm(n.targets[0] if isinstance(n, ast.Assign) else n.target)] = n.value
-    for r in returns(dflt):
+    for r in (returns(dflt) if tab is None else ()):
         v = r.value
         if isinstance(v, ast.Name) and v.id in res_names:
             v = res_names[v.id]
